@@ -35,6 +35,20 @@ Definition str_repeat (s : bytes) (n : Z) : option bytes :=
 (* s[:n]: panics unless 0 <= n <= len(s) (None) *)
 Definition str_prefix (s : bytes) (n : Z) : option bytes :=
   if (n <? 0) || (Z.of_nat (List.length s) <? n) then None else Some (firstn (Z.to_nat n) s).
+(* s[n:]: panics unless 0 <= n <= len(s) (None) *)
+Definition str_suffix (s : bytes) (n : Z) : option bytes :=
+  if (n <? 0) || (Z.of_nat (List.length s) <? n) then None else Some (skipn (Z.to_nat n) s).
+(* s[n]: the byte as a number; panics unless 0 <= n < len(s) (None) *)
+Definition str_at (s : bytes) (n : Z) : option Z :=
+  if n <? 0 then None else match nth_error s (Z.to_nat n) with Some b => Some (bz b) | None => None end.
+(* strings.IndexRune(s, c) / strings.IndexByte for a rune c < 0x80 (the translator accepts only such a
+   constant): the index of the first byte c, -1 if there is none *)
+Fixpoint str_index_from (s : bytes) (c : Z) (i : Z) : Z :=
+  match s with
+  | [] => -1
+  | b :: s' => if bz b =? c then i else str_index_from s' c (i + 1)
+  end.
+Definition str_index_byte (s : bytes) (c : Z) : Z := str_index_from s c 0.
 (* strings.ToLower is Dec.to_lower (ASCII letters only: on a string with bytes >= 0x80 Go also maps
    the upper-case letters of Unicode and replaces invalid UTF-8; the level names of the model are
    compared under the ASCII mapping, see DESIGN.md section 4, C17);
